@@ -17,7 +17,6 @@ import (
 	"sort"
 	"strings"
 	"time"
-	"unicode/utf8"
 
 	"go.lsp.dev/protocol"
 	"go.lsp.dev/uri"
@@ -707,6 +706,9 @@ var c09Counter int
 
 func c09Start(c *Ctx, sc *c09Scenario) *c09Session {
 	c09Counter++
+	// the workspace root is looked up through these before the directory is scanned
+	_ = os.Unsetenv("LEDGER_FILE")
+	_ = os.Unsetenv("HLEDGER_JOURNAL")
 	base := c.Tmp
 	if base == "" {
 		base = os.TempDir()
@@ -1160,7 +1162,7 @@ func (s *c09Session) run(reqs []c09Req, rename bool) map[string]any {
 
 func genC09(c *Ctx) {
 	r := c.R
-	n := c.N(220, 3000)
+	n := c.N(220, 8000)
 	for i := 0; i < n; i++ {
 		sc := genC09Scenario(c, r)
 		s := c09Start(c, sc)
@@ -1224,5 +1226,3 @@ func replayC09(c *Ctx, m map[string]any) map[string]any {
 	defer s.close()
 	return s.run(reqs, m["op"].(string) == "c09.rename")
 }
-
-var _ = utf8.RuneLen
